@@ -65,6 +65,7 @@ class SimConnector(Connector):
 
     async def get_available_locations(self, service=None):
         sim = core.CURRENT
+        self._log("use", sim.sim_id(self), self.live)
         await sim.io("locations", self.deployment_name)
         out = {}
         for spec in self.locs:
@@ -145,6 +146,7 @@ class SimWrapper(ConnectorWrapper):
 
     async def get_available_locations(self, service=None):
         sim = core.CURRENT
+        self._log("use", sim.sim_id(self), self.live)
         inner = await self.connector.get_available_locations(service=self.service)
         await sim.io("locations", self.deployment_name)
         out = {}
